@@ -5,7 +5,7 @@ out=/verif/seeded/MATRIX.txt
 for d in /verif/seeded/*/; do
   n=$(basename $d); id=${n%%-*}
   checks="$id"
-  case $n in C03-B) checks="C02";; C01-B) checks="C01 C12";; C12-B) checks="C12 C10 C11";; C05-B) checks="C05 C04";; C07-B) checks="C07 C04";; C10-A) checks="C10 C11";; C10-B) checks="C10 C09";; esac
+  case $n in C03-B) checks="C02";; C01-B) checks="C01 C12";; C12-B) checks="C12 C10 C11";; C05-B) checks="C05 C04";; C07-B) checks="C07 C04";; C10-A) checks="C10 C11";; C10-B) checks="C10 C09";; C15-E) checks="C14";; esac
   for c in $checks; do
     if [ "$n" = "C17-B" ]; then
       W=/tmp/c17b.$$; git -C /repo worktree add --detach $W ff24617 >/dev/null 2>&1; (cd $W && git apply $d/patch.diff)
